@@ -83,6 +83,11 @@ STATE_PAIRS = [
     ('api/a30_syntax_error.py', 'api/a66_nested_fstrings.py'),
 ]
 
+# modules that stress one mechanism on their own (always part of a sweep family, and preferred for its symmetric
+# two-thread runs): early locals shadowing late builtins, folding, f-strings, hoisting, builtin-heavy code
+SOLO_SPECIAL = ['api/a60_shadow_builtins_first.py', 'api/a61_builtin_heavy.py', 'api/a13_folding.py', 'api/a12_fstring.py',
+                'api/a10_hoist.py', 'api/a66_nested_fstrings.py', 'api/a29_builtins.py', 'api/a43_config_mixed.py']
+
 NAME_POOL = [
     'helper', 'other', 'foo', 'bar', 'value', 'result', 'item', 'T', 'U', 'K', 'Item', 'Rest', 'Params',
     'CONSTANT_VALUE', 'another_global', 'public_function', 'PublicClass', 'handler', 'self', 'cls', 'args',
